@@ -796,6 +796,24 @@ def r_seg_fields(rep, f):
                             bad.append((a, n, "`%s` is passed to the interpolation function in the position of `%s`" % (sf, pos_names[j])))
                         else:
                             n_ok += 1
+    # the two views know nothing about the layout of `cont` (it differs per method: the leading block is the left-end state
+    # for the explicit methods, the right-end state for Radau, interleaved for BDF): a function that calls the stored
+    # interpolation function must hand its output slice to that call and write it nowhere else
+    for n, b in sorted(fns.items()):
+        icalls = [c for c in tast.find(b["body"], lambda z: z.get("k") == "Call" and z.get("f", {}).get("k") == "Field" and (z["f"].get("fdef") or "").rsplit("::", 1)[0] in STRUCTS)]
+        if not icalls:
+            continue
+        outs = [p_ for p_ in b.get("params", []) if p_.get("k") == "PBind" and (p_.get("ty") or "").startswith("&mut [")]
+        outs += [l_["pat"] for l_ in tast.find(b["body"], lambda z: z.get("k") == "Let" and z["pat"].get("k") == "PBind" and "Vec<f64>" in (z["pat"].get("ty") or ""))]
+        for o in outs:
+            oid = o.get("id")
+            mentions_o = lambda e: tast.contains(e, lambda q: q.get("k") == "Path" and q.get("id") == oid)
+            writes = [w for w in tast.find(b["body"], lambda z: (z.get("k") in ("Assign", "AssignOp") and mentions_o(z["l"]))
+                                           or (z.get("k") == "MethodCall" and mentions_o(z["recv"]) and z.get("name") in ("copy_from_slice", "clone_from_slice", "fill", "swap", "iter_mut", "as_mut", "split_at_mut", "chunks_mut", "push", "extend_from_slice")))]
+            if writes:
+                bad.append((writes[0], n, "`%s` is also written directly (%s) by a function that delegates to the stored interpolation function: the view would have to know the method's coefficient layout" % (o.get("name"), tast.render(writes[0])[:50])))
+            else:
+                n_ok += 1
     for node, fn, why in bad:
         rep.violation(key, "%s:%s:%s" % (key, fn, why.split("`")[1]), "%s in %s: the owned and the borrowed view of a step then evaluate different polynomials (sol(t) vs the per-step interpolant)" % (why, fn), node.get("sp"))
     if not bad:
